@@ -122,7 +122,7 @@ Definition default_ok (fm : fmeta) : bool :=
 Definition skip_ok (fm : fmeta) (ft : ty) : bool :=
   match f_skip fm with
   | SNever => true
-  | SIfNone => is_opt ft && match f_default fm with DConst _ => false | _ => true end
+  | SIfNone => is_opt ft && match f_default fm with DRequired | DDefault => true | _ => false end
   | SIfEmpty => match f_default fm, ft with
                 | DDefault, (TStr | TVec _ | TMap _ _ | TObjAny) => true
                 | _, _ => false
@@ -286,6 +286,7 @@ Section Proofs.
         | DDefault => default_of ft
         | DConst c => deser ft c
         | DRequired => match ft with TOpt _ => Some VNone | _ => None end
+        | DStrict => None
         end
     | _ => None
     end.
@@ -491,6 +492,7 @@ Section Proofs.
           -- now apply default_of_ok.
           -- unfold field_ok, default_ok in Hfo. rewrite Ed in Hfo. apply andb_true_iff in Hfo as [Hc _].
              eapply Hft; eauto.
+          -- discriminate.
         * (* the member found is one of [m]'s members *)
           assert (Hx : nodup_deep x = true).
           { clear -Ef Hm.
@@ -555,7 +557,7 @@ Section Proofs.
       + rewrite Hname_ms. unfold skipped in Esk. unfold field_ok in Hfo. apply andb_true_iff in Hfo as [_ Hso].
         unfold skip_ok in Hso. destruct (f_skip fm) as [| | | |c]; [discriminate| | | |].
         * destruct x; try discriminate. apply andb_true_iff in Hso as [Ho Hd].
-          destruct ft; try discriminate. destruct (f_default fm); [reflexivity|reflexivity|discriminate].
+          destruct ft; try discriminate. destruct (f_default fm); [reflexivity|reflexivity|discriminate|discriminate].
         * destruct (f_default fm); try discriminate.
           destruct ft; try discriminate; destruct x; cbn in Hx; try contradiction; cbn [is_empty_val] in Esk.
           -- destruct s; [reflexivity|discriminate].
@@ -564,7 +566,7 @@ Section Proofs.
           -- destruct m; [reflexivity|discriminate].
         * destruct (f_default fm); try discriminate. destruct (default_of ft) as [d|]; [|discriminate].
           apply val_eqb_eq in Esk. now subst.
-        * destruct (f_default fm) as [| |c']; try discriminate.
+        * destruct (f_default fm) as [| |c'|]; try discriminate.
           apply json_eqb_eq in Hso. apply json_eqb_eq in Esk. subst. exact Dy.
       + rewrite lookup_cons_eq. exact Dy.
   Qed.
